@@ -227,17 +227,6 @@ unsafe fn write_all(fd: i32, mut b: &[u8]) {
     }
 }
 
-/// Installs a panic hook that prints nothing. Controlled panics are legal
-/// outcomes in most checks; their messages would drown the output.
-pub fn silence_panics() {
-    std::panic::set_hook(Box::new(|_| {}));
-}
-
-/// `catch_unwind` that does not require `UnwindSafe` and maps a panic to `None`.
-pub fn catch<R>(f: impl FnOnce() -> R) -> Option<R> {
-    std::panic::catch_unwind(std::panic::AssertUnwindSafe(f)).ok()
-}
-
 #[cfg(test)]
 mod tests {
     use super::*;
